@@ -37,3 +37,18 @@ Proof. exact comment_extent. Qed.
 Theorem C18_streams_agree : forall fuel l l', R L_any l l' -> Ropt L_any (lex_all fuel l) (lex_all fuel l').
 Proof. intros fuel l l'. exact (R_lex_all L_any L_any_S fuel l l'). Qed.
 Print Assumptions C18_streams_agree.
+
+(* ---- the known finding c18-comment-tag-with-quote, as a theorem about the faithful model ----
+   the template  a, comment tag holding the words say and hi with one double quote before hi,
+   b, output tag n, c  (bytes below) with n = 3 renders just the letter a, not ab3c: the quote
+   inside the comment tag is lexed as the start of a string literal that runs to the end *)
+From Coq Require Import String.
+From Plush Require Import model.Ast model.Parser model.Value model.Eval model.Cases.
+Local Open Scope string_scope.
+Theorem C18_comment_tag_with_quote_refuted :
+  match run_case [] (mkrcase (hx "613c2523207361792022686920253e623c253d206e20253e63") [((hx "6e"), DInt 3%Z)] [] (ObsOk []) []) with
+  | OOk out _ => out = hx "61"
+  | _ => False
+  end.
+Proof. vm_compute. reflexivity. Qed.
+Print Assumptions C18_comment_tag_with_quote_refuted.
